@@ -516,13 +516,23 @@ class Body:
                 elif "dc" in p:
                     # downcast of a value built from known enum constructors: pick the constructor of that variant
                     sel = None
+                    dc_ = p["dc"]
+                    if dc_ == "Continue" and isinstance(base, tuple) and base[0] == "call" and base[1] == "branch" and base[3]:
+                        # `x?`: (Try::branch(x) as Continue).0 is (x as Some).0 / (x as Ok).0
+                        base = base[3][0]
+                        while isinstance(base, tuple) and base[0] == "call" and base[1] in TRANSPARENT_CALLS and base[3]:
+                            base = base[3][0]
+                        p = dict(p, dc="Some")
                     cands = base[1] if isinstance(base, tuple) and base[0] == "phi" else [base]
+                    # (`None?` / `Err(e)?` propagated by from_residual is never the Some / Ok / Continue that is being projected)
+                    if p["dc"] in ("Some", "Ok", "Continue"):
+                        cands = [x for x in cands if not (isinstance(x, tuple) and x[0] == "call" and x[1] == "from_residual")]
                     aggs = [x for x in cands if isinstance(x, tuple) and x[0] == "agg" and isinstance(x[1], str)]
                     if aggs and len(aggs) == len(cands):
-                        m = [x for x in aggs if x[1].split("::")[-1] == p["dc"]]
+                        m = [x for x in aggs if x[1].split("::")[-1] == p["dc"] or (dc_ == "Continue" and x[1].split("::")[-1] in ("Some", "Ok"))]
                         if len(m) == 1:
                             sel = m[0]
-                    base = sel if sel is not None else ("variant", base, p["dc"])
+                    base = sel if sel is not None else (("variant", ("call", "branch", "", [base], -1), "Continue") if dc_ == "Continue" and p["dc"] == "Some" else ("variant", base, p["dc"]))
                 elif "sub" in p:
                     base = ("subslice", base)
         return base
